@@ -185,12 +185,14 @@ func (mp *memPart) mustInitFromDataPoints(dps *dataPoints) {
 	var tsPrev int64
 	for i := 0; i < len(dps.timestamps); i++ {
 		sid := dps.seriesIDs[i]
-		if sidPrev == 0 {
+		if i == 0 {
 			sidPrev = sid
 		}
 
 		if sid == sidPrev {
-			if tsPrev == dps.timestamps[i] {
+			// Compare with the previous kept point of the current block only: zero is a
+			// valid timestamp (and series ID), so it cannot serve as the "no previous" mark.
+			if i > indexPrev && tsPrev == dps.timestamps[i] {
 				dps.skip(i)
 				i--
 				continue
